@@ -972,7 +972,6 @@ func c16OptionalCallbacksNilChecked(r *fw.Run) {
 	r.Expect("C16-R7", "calls of optional callbacks", nCalls, 1)
 }
 
-
 // c16FollowerMirrorsLeader (R8): "stored only from a successful response" is decided from the status code in the
 // ResponseContext of the request at hand. A single-flight follower makes no HTTP call: it must rebuild its ResponseContext
 // from what the leader recorded in the shared item. The leader's copy (item.f = … rc.g …) and the follower's copy
